@@ -163,7 +163,8 @@ func VsymC14() {
 	W := vr.Param("writers", 2)
 	R := vr.Param("readers", 1)
 	ctx := context.Background()
-	urlNames := []string{"http://example.com/a.crl", "http://example.com/b.crl"}
+	// two URLs that differ in their query only: the cache key is the URL, all of it
+	urlNames := []string{"http://example.com/crl?issuer=1", "http://example.com/crl?issuer=2"}
 	names := &c14Names{}
 	root := ""
 	var writers, readers []c14Prog
@@ -504,34 +505,57 @@ func VsymC14Handles() {
 		handles = append(handles, c)
 	}
 	url := "http://example.com/a.crl"
-	var last []byte
+	type stored struct{ base, delta []byte }
+	var last *stored
+	mint := func(tag byte, op int) (*x509.RevocationList, []byte) {
+		if vr.Symbolic() {
+			b := &c15CRL{der: []byte{'h', tag, byte('0' + op)}, nextUpdate: 1 << 41}
+			b.list = &x509.RevocationList{Raw: b.der, NextUpdate: time.Unix(1<<41, 0)}
+			c15Known = append(c15Known, b)
+			return b.list, b.der
+		}
+		// natively: real CRLs of equal encoded size (re-issued lists with consecutive numbers)
+		der := c15MintCRL(int64(100+10*int(tag-'a')+op), time.Now().Add(240*time.Hour))
+		list, _ := x509.ParseRevocationList(der)
+		return list, der
+	}
 	n := vr.Param("ops", 4)
 	for op := 0; op < n; op++ {
 		h := handles[vr.Choice("handle", 2)]
-		if vr.Choice("op", 2) == 0 {
-			var list *x509.RevocationList
-			var der []byte
-			if vr.Symbolic() {
-				b := &c15CRL{der: []byte{'h', 'c', byte('0' + op)}, nextUpdate: 1 << 41}
-				b.list = &x509.RevocationList{Raw: b.der, NextUpdate: time.Unix(1<<41, 0)}
-				c15Known = append(c15Known, b)
-				list, der = b.list, b.der
-			} else {
-				// natively: real CRLs of equal encoded size (re-issued lists with consecutive numbers)
-				der = c15MintCRL(int64(100+op), time.Now().Add(240*time.Hour))
-				list, _ = x509.ParseRevocationList(der)
+		switch vr.Choice("op", 3) {
+		case 0: // store a bundle: base only, or base and delta
+			b := &corecrl.Bundle{}
+			s := &stored{}
+			b.BaseCRL, s.base = mint('a', op)
+			if vr.Choice("withDelta", 2) == 1 {
+				b.DeltaCRL, s.delta = mint('b', op)
 			}
-			vr.Assert(h.Set(ctx, url, &corecrl.Bundle{BaseCRL: list}) == nil, "storing succeeds")
-			last = der
+			vr.Assert(h.Set(ctx, url, b) == nil, "storing succeeds")
+			last = s
+			continue
+		case 1: // the entry disappears behind the handles' back (another process cleans the cache directory)
+			if last == nil {
+				continue
+			}
+			vr.Assert(os.Remove(root+"/"+h.fileName(url)) == nil, "harness: entry removed")
+			last = nil
 			continue
 		}
 		c15NowSecs = 1000
 		got, err := h.Get(ctx, url)
 		if last == nil {
-			vr.Assert(err == corecrl.ErrCacheMiss, "nothing stored yet: a miss")
+			vr.Assert(err == corecrl.ErrCacheMiss, "nothing stored (any more): a miss")
 			continue
 		}
-		vr.Assert(err == nil && got != nil && string(got.BaseCRL.Raw) == string(last), "a read that starts after a write has returned yields that write's bundle, whichever handle wrote and whichever reads")
+		ok := err == nil && got != nil && got.BaseCRL != nil && string(got.BaseCRL.Raw) == string(last.base)
+		if ok {
+			if last.delta == nil {
+				ok = got.DeltaCRL == nil
+			} else {
+				ok = got.DeltaCRL != nil && string(got.DeltaCRL.Raw) == string(last.delta)
+			}
+		}
+		vr.Assert(ok, "a read that starts after a write has returned yields that write's bundle - its base and its delta, nothing of an earlier one - whichever handle wrote and whichever reads")
 		vr.Reach("read after write through handles")
 	}
 }
